@@ -550,7 +550,9 @@ func (o Ops) Gamma(cond string, t, f *Int) *Int {
 		hi = f.Hi
 	}
 	key := "ite[" + cond + "](" + t.Lin.Key() + "|" + f.Lin.Key() + ")"
-	return o.mk(w, t.Signed, bv, lo, hi, LinAtom(w, o.In.Derived(key, w, hi, t.Lin, f.Lin)))
+	a := o.In.Derived(key, w, hi, t.Lin, f.Lin)
+	a.IteCond, a.IteT, a.IteF = cond, t.Lin, f.Lin
+	return o.mk(w, t.Signed, bv, lo, hi, LinAtom(w, a))
 }
 
 // JoinGated is Join with the key of the controlling branch condition recorded in
